@@ -123,6 +123,8 @@ pub const KINDS: &[Kind] = &[
     kdm("rfsm-assign-self", Want::Any, "<script>v0 = v0</script>", "rfsm-expression"),
     kdm("rfsm-assign-location-self", Want::Any, "<assign location=\"v0\" expr=\"v0\"/>", "rfsm-expression"),
     kdm("rfsm-index-self", Want::Any, "<script>arr[arr]</script>", "rfsm-expression"),
+    kdm("rfsm-cyclic-payload", Want::Any, "<script>y ?= [0]</script><script>y[0] = y</script><send event=\"e\"><param name=\"p\" location=\"y\"/></send>", "rfsm-expression"),
+    kdm("rfsm-cyclic-payload-namelist", Want::Any, "<script>y ?= [0]</script><script>y[0] = y</script><send event=\"e\" namelist=\"y\"/>", "rfsm-expression"),
     kdm("rfsm-operator-at-end", Want::Exec, "<script>v0 &lt;</script>", "rfsm-expression"),
     kdm("rfsm-cond-operator-at-end", Want::Exec, "<if cond=\"v0 =\"><script>mark(1)</script></if>", "rfsm-expression"),
     kdm("rfsm-unknown-method", Want::Exec, "<script>v0.nosuch(1)</script>", "rfsm-expression"),
